@@ -3,7 +3,7 @@ import types
 import vlib
 
 ID = 'C08'
-LEAN_MODULES = ['TboxModel.C08.Props', 'TboxModel.C08.PropsExt']
+LEAN_MODULES = ['TboxModel.C08.Props', 'TboxModel.C08.PropsExt', 'TboxModel.C08.PropsR5']
 EXE = 'c08'
 THEOREMS = [
     'Tbox.C08.C08_cab_freelist', 'Tbox.C08.C08_cab_alloc_never_throws', 'Tbox.C08.C08_cab_lookup',
@@ -18,6 +18,8 @@ THEOREMS = [
     'Tbox.C08.C08_fd_no_use_after_close', 'Tbox.C08.C08_fd_close_all_copies', 'Tbox.C08.C08_fd_io', 'Tbox.C08.C08_fd_open', 'Tbox.C08.C08_fd_empty_source',
     'Tbox.C08.C08_fd_flags', 'Tbox.C08.C08_fd_flags_frame', 'Tbox.C08.C08_fd_cloexec_counterexample',
     'Tbox.C08.C08_cab_alloc_bad_alloc', 'Tbox.C08.C08_pool_ctor_throw', 'Tbox.C08.C08_pool_ctor_throw_leak_counterexample',
+    'Tbox.C08.C08_no_dangle_no_alias', 'Tbox.C08.C08_pool_lost_never_reused', 'Tbox.C08.C08_pool_athrow_is_events', 'Tbox.C08.C08_cab_each_throw', 'Tbox.C08.C08_cab_each_throw_stale',
+    'Tbox.C08.C08_fd_reentrant', 'Tbox.C08.C08_fd_reentrant_close_counterexample',
     'Tbox.C08.C08_lt_watcher_copy', 'Tbox.C08.C08_lt_watcher_move', 'Tbox.C08.C08_lt_watcher_bind', 'Tbox.C08.C08_lt_tag_copy', 'Tbox.C08.C08_lt_outlive',
 ]
 SOURCES = ['modules/util/fd.cpp'] + vlib.BASE_SOURCES
@@ -44,6 +46,13 @@ TRUSTED = [
     '::close results are discarded by the code (fd.cpp:58,98), so the model step does not take them; `fd closefail n e` makes the next n interposed closes really close and then return -1/EINTR|EIO',
     'the harness replaces the global operator new/delete (malloc/free underneath) so that `cab allocfail` can make the vector growth inside Cabinet::alloc throw bad_alloc (capacity forced to size with shrink_to_fit first); '
     'which of allocId()/allocPos() ran first is compiler-specific: M line `lastid`, theorem covers both orders',
+    'round 5: `pool x … t` = the probe constructor throws AFTER the nested calls its script made; the exception is caught by whoever made the call (the enclosing script); an enclosing constructor that fails too is flagged itself. '
+    'Block identities (M blk=) are address labels in order of first constructor entry, printed only for pools that never give blocks back (keep = max)',
+    '`cab each` actions x/X/e/E: alloc with operator new failing (capacity forced to size with shrink_to_fit inside the callback) / reserve(2^63) -> length_error, caught inside the callback or thrown through foreach; '
+    'reserve(n >= 2^32) never really allocates (100000 <= n < 2^32 is refused as bad-op: such a capacity can exist after bulk ops): operator new is made to fail (bad_alloc) unless n > max_size() (length_error; libstdc++ max_size = PTRDIFF_MAX/sizeof(Cell), model constant cabMaxCells, M line)',
+    '`cab opd` derives forged tokens from the private members last_id_/first_free_/cells_.size() (harness compiled with private->public) and from issued tokens; the same derivation runs on the model state',
+    '`fd x` programs: the harness close function runs the bracketed script of the operation in progress (operations on the same eight handles); a slot whose object is being destroyed already holds a new empty handle; '
+    'model = FdSys.runD, proved equal to the flat history (C08_fd_reentrant) for the code after patches/C08-06; scripts are accepted under close/reset/new only (where the close function is the last thing the member does)',
     '`pool allocthrow`: the probe constructor throws; the lost block is not observable on the implementation side (no leak detector in the run): the P line carries the counters, the statistics and the later reuse pattern',
 ]
 ASSUMPTIONS = ['fewer than 2^64-1 allocations on one Cabinet (id wrap-around excluded: hypothesis `wrapped = false` of the cabinet theorems; '
@@ -54,7 +63,9 @@ ASSUMPTIONS = ['fewer than 2^64-1 allocations on one Cabinet (id wrap-around exc
                'fewer than 2^31 copies of one Fd (ref_count is an int; C08_fd_refcount: ref_count = number of handles; 2^31 handle objects need 32 GiB)',
                'descriptor numbers handed to Fd(int) are not closed by anybody else while a handle holds them',
                'ObjectPool::free of a pointer twice / of a foreign pointer is outside the contract and not modelled',
-               'a foreach callback that allocates on every invocation is bounded by the initial cell count (code after patches/C08-02)']
+               'a foreach callback that allocates on every invocation is bounded by the initial cell count (code after patches/C08-02)',
+               'an exception never leaves a pooled DESTRUCTOR (std::terminate); exceptions of constructors are caught by the caller of alloc()',
+               'a close function does not touch the Fd object whose destructor / assignment is running it (it may touch every other handle, and the handle close() was called on)']
 RULE = ('op histories over one Cabinet<int> (tokens retained for the whole history and re-queried with `scan`), one ObjectPool<Probe> (probe constructors/destructors run nested alloc/free scripts on the same pool) '
         'with 16 user slots and retention limits {0,1,2,3,5,16,max}, 8 Fd handles on real descriptors dup()ed from a pipe (also invalid numbers and empty close functions), and 4 LifetimeTag + 6 Watcher slots; '
         'bulk histories: n allocations in a row (n around 2^16 and up to 70 000 in quick, 300 000 in thorough) with every token re-queried, subsets freed in both orders, re-allocation over the freed cells; '
@@ -63,7 +74,7 @@ RULE = ('op histories over one Cabinet<int> (tokens retained for the whole histo
         'pool block after a release, or closes a descriptor through the last of several copies, or lets watchers outlive their tag / frees a tag record through its last watcher, '
         'or makes a kernel-facing Fd call through a copy after close() on another copy, sets FD_CLOEXEC on a non-blocking descriptor, fails an Open, lets Cabinet::alloc fail with bad_alloc, lets a pooled constructor throw, '
         'carries the id counter across 2^16/2^31/2^32/2^63, uses a retention limit >= 2^31, re-enters the cabinet read-only (nested foreach / size / reserve) from a callback, '
-        'or holds more than 2^16 cells, or parks beyond the retention limit in a bulk run, or builds a token with a position >= 2^16 / id >= 2^48; distinct = distinct op text')
+        'lets a pooled constructor throw while nested in other pool calls, lets alloc()/reserve() throw inside a foreach callback, looks up tokens derived from the cabinet state (next token, id counter, previous occupant), runs a re-entrant close function, assigns between handles sharing a record, or holds more than 2^16 cells, or parks beyond the retention limit in a bulk run, or builds a token with a position >= 2^16 / id >= 2^48; distinct = distinct op text')
 
 
 # ---------------------------------------------------------------------------------- differ
@@ -153,17 +164,24 @@ class CabGen:
             # past its capacity), update, clear
             k = r.randrange(0, 6); items = []; cleared = False; sure = 0
             had_live = len(self.live) > 0
-            mode = r.random()
+            mode = r.random(); throws = r.random() < 0.3; abort0 = False
             for _ in range(k):
                 inv = r.randrange(0, max(1, min(len(self.live) + 1, 12)))
                 y = r.random()
+                if throws and r.random() < 0.4:
+                    # calls that throw inside the callback: alloc with operator new failing / reserve beyond max_size(),
+                    # caught by the callback (x, e) or leaving foreach (X, E: the iteration stops there)
+                    a = r.choice(['x%d' % r.randrange(1, 1000), 'x%d' % r.randrange(1, 1000), 'X%d' % r.randrange(1, 1000), 'e', 'E'])
+                    items.append('%d:%s' % (inv, a))
+                    if inv == 0 and a[0] in 'XE': abort0 = True
+                    continue
                 if mode < 0.55 or y < 0.5:
                     i = self.any_tok(); items.append('%d:%d' % (inv, i))
                     if i in self.live: self.live.remove(i)   # approximately
                 elif y < 0.8:
                     for _ in range(r.choice([1, 1, 2, 9, 40]) if mode > 0.9 else 1):
                         items.append('%d:a%d' % (inv, r.randrange(1, 1000)))
-                        if inv == 0 and had_live: sure += 1
+                        if inv == 0 and had_live and not abort0: sure += 1
                 elif y < 0.88:
                     items.append('%d:u%d.%d' % (inv, self.any_tok(), r.randrange(1000)))
                 elif y < 0.93:
@@ -181,13 +199,45 @@ class CabGen:
                 self.n += 1
         elif x < 0.915:
             self.ops.append('cab clear'); self.live = []
-        elif x < 0.93:
-            self.ops.append('cab reserve %d' % r.choice([0, 1, 16, 1000]))
+        elif x < 0.925:
+            self.ops.append('cab reserve %d' % r.choice([0, 1, 16, 1000, 99999, 2**32, 2**33, 2**48, 576460752303423487, 576460752303423488, 2**60, 2**63, 2**64 - 1]))
+        elif x < 0.94:
+            if self.n:
+                self.ops.append('cab opd %s %s %d' % (r.choice(['at', 'at', 'free', 'upd']), r.choice(DERIVED), self.any_tok()))
         elif x < 0.95:
             # forged tokens: null id, huge pos, plausible (id,pos)
             self.ops.append('cab atraw %d %d' % (r.choice([0, 1, 2, self.n, self.n + 1, 3999999999]), r.choice([0, 1, 2, len(self.live), 3999999999])))
         else:
             self.alloc()
+
+
+DERIVED = ['next', 'nextid', 'lastid', 'idm1', 'idp1', 'prev', 'zero', 'posS', 'posS1', 'posmax', 'posF', 'swap']
+
+
+def gen_derived(rng):
+    """lesson (g): after a history with reuse, tokens DERIVED from the cabinet's own state - the next token to be issued, the
+    id counter with an old position, the previous occupant of a cell, neighbours of an issued id, positions at / beyond
+    the end and at the free-list head - are looked up, updated and freed; everything issued must resolve as before"""
+    k = rng.randrange(2, 7)
+    ops = ['cab alloc %d' % (i + 1) for i in range(k)]
+    n = k
+    for _ in range(rng.randrange(0, 5)):
+        y = rng.random()
+        if y < 0.5: ops.append('cab free %d' % rng.randrange(n))
+        elif y < 0.9: ops.append('cab alloc %d' % rng.randrange(1, 1000)); n += 1
+        else: ops.append('cab clear')
+    ops.append('cab scan')
+    for kind in rng.sample(DERIVED, rng.randrange(3, len(DERIVED) + 1)):
+        i = rng.randrange(n)
+        what = rng.choice(['at', 'at', 'upd', 'free'])
+        ops.append('cab opd %s %s %d' % (what, kind, i))
+        if rng.random() < 0.4:
+            # the derived token again after the state it was derived from moved on
+            ops.append(rng.choice(['cab alloc 9', 'cab free %d' % rng.randrange(n), 'cab alloc 8']))
+            if ops[-1].startswith('cab alloc'): n += 1
+            ops.append('cab opd at %s %d' % (kind, i))
+    ops += ['cab scan', 'cab size', 'cab each -']
+    return ops
 
 
 def gen_cab(rng, nops, target=None, scan_p=0.03):
@@ -209,7 +259,8 @@ def ptree(rng, live, depth):
             h = rng.choice(free) if free and rng.random() < 0.85 else rng.randrange(16)
             toks += ['A', str(h), str(rng.randrange(1000000))]
             if nest: toks += ptree(rng, live, depth + 1)
-            toks.append('a'); live.add(h)
+            if rng.random() < 0.15: toks.append('t')              # the constructor throws after its nested calls: slot stays empty
+            else: toks.append('a'); live.add(h)
         else:
             h = rng.choice(sorted(live)) if live and rng.random() < 0.85 else rng.randrange(16)
             toks += ['F', str(h)]; live.discard(h)
@@ -219,6 +270,42 @@ def ptree(rng, live, depth):
 
 
 KEEP_WIDE = ['2147483647', '2147483648', '4294967295', '4294967296', '4294967297', '9223372036854775808', '18446744073709551614']
+
+
+def gen_pool_lifo(rng):
+    """lesson (g): the block just freed is the head of the chain, i.e. exactly what the next alloc - also one made from inside a
+    constructor or destructor, also one whose constructor throws - is handed; block identities are compared (M blk=) while
+    the pool never gives blocks back"""
+    ops = ['pool new %s' % rng.choice(['max', 'max', '1', '2'])]
+    ops += ['pool alloc %d %d' % (i, i + 1) for i in range(rng.randrange(1, 5))]
+    live = set(range(len(ops) - 1))
+    for _ in range(rng.randrange(4, 14)):
+        y = rng.random()
+        free = [h for h in range(16) if h not in live]
+        if len(free) < 2:
+            h = rng.choice(sorted(live)); ops.append('pool free %d' % h); live.discard(h); continue
+        if y < 0.25 and live:
+            h = rng.choice(sorted(live)); g = rng.choice(free)
+            ops.append('pool free %d' % h); ops.append('pool alloc %d %d' % (g, rng.randrange(1000))); live.discard(h); live.add(g)
+        elif y < 0.45 and live:
+            # the destructor of the object being freed allocates: it must not get the block it is dying in
+            h = rng.choice(sorted(live)); g = rng.choice(free)
+            t = rng.random() < 0.3
+            ops.append('pool x F %d A %d %d %s f' % (h, g, rng.randrange(1000), 't' if t else 'a')); live.discard(h)
+            if not t: live.add(g)
+        elif y < 0.6 and live:
+            # a constructor frees an object and allocates again: the freed block is the head of the chain
+            h = rng.choice(sorted(live)); g, g2 = rng.sample(free, 2)
+            t = rng.random() < 0.3
+            ops.append('pool x A %d 5 F %d f A %d 6 a %s' % (g, h, g2, 't' if t else 'a')); live.discard(h); live.add(g2)
+            if not t: live.add(g)
+        elif y < 0.75:
+            ops.append('pool allocthrow %d %d' % (rng.choice(free), rng.randrange(1000)))
+        elif y < 0.9 and live:
+            h = rng.choice(sorted(live)); ops.append('pool free %d' % h); live.discard(h)
+        else:
+            g = rng.choice(free); ops.append('pool alloc %d %d' % (g, rng.randrange(1000))); live.add(g)
+    return ops + ['pool stat']
 
 
 def gen_pool(rng, nops):
@@ -293,6 +380,69 @@ def gen_fd(rng, nops):
     return ops
 
 
+FD_SIMPLE = ['close.%d', 'reset.%d', 'new.%d', 'open.%d.fn', 'open.%d.raw', 'cloexec.%d', 'isnb.%d', 'nonblock.%d.1', 'io.%d.read.3']
+FD_PAIR = ['cpa.%d.%d', 'mva.%d.%d', 'swap.%d.%d', 'cpc.%d.%d', 'mvc.%d.%d']
+
+
+def fd_tree(rng, nslots, depth, budget):
+    """items of an `fd x` program: operations; after close / reset / new a bracket with what the close function does"""
+    out = []
+    for _ in range(rng.randrange(1, 5)):
+        if budget[0] <= 0: break
+        budget[0] -= 1
+        if rng.random() < 0.3 and depth < 4:
+            # a handle with a close function is made and let go at once: its close function certainly runs
+            a = rng.randrange(nslots)
+            out += ['open.%d.fn' % a] + (['cpa.%d.%d' % ((a + 1) % nslots, a)] if rng.random() < 0.4 and nslots > 1 else []) + \
+                   [rng.choice(['close.%d', 'reset.%d', 'new.%d', 'close.%d']) % a, '['] + fd_tree(rng, nslots, depth + 1, budget) + [']']
+            continue
+        if rng.random() < 0.6:
+            it = rng.choice(FD_SIMPLE) % rng.randrange(nslots)
+        else:
+            a, b = rng.randrange(nslots), rng.randrange(nslots)
+            f = rng.choice(FD_PAIR)
+            if f[:3] in ('cpc', 'mvc') and a == b: f = 'swap.%d.%d'
+            it = f % (a, b)
+        out.append(it)
+        if it.split('.')[0] in ('close', 'reset', 'new') and depth < 4 and rng.random() < 0.6:
+            out += ['['] + fd_tree(rng, nslots, depth + 1, budget) + [']']
+    return out
+
+
+def gen_fd_x(rng, nops):
+    """close functions that call back into the handles (re-entrant scripts): close() / reset() / destruction of a handle whose
+    close function closes, resets, copies, re-opens ... the same handle and its copies, nested"""
+    nslots = rng.choice([2, 3, 4])
+    ops = []; opened = 0
+    for _ in range(nops):
+        if opened < 150 and rng.random() < 0.35:
+            a = rng.randrange(nslots); ops.append('fd open %d fn' % a); opened += 1
+            for _ in range(rng.randrange(0, 3)):
+                b = rng.randrange(nslots)
+                if b != a: ops.append('fd %s %d %d' % (rng.choice(['cpc', 'cpa']), b, a))
+        budget = [rng.choice([3, 8, 20])]
+        t = fd_tree(rng, nslots, 0, budget)
+        opened += sum(1 for x in t if x.startswith('open'))
+        if opened < 190: ops.append('fd x ' + ' '.join(t))
+    return ops + ['fd new %d' % s for s in range(nslots)]
+
+
+def gen_fd_same(rng):
+    """lesson (g): every binary operation between two handles that SHARE one record, then with the record closed through a
+    third copy; the descriptor must be closed exactly when the last of them goes"""
+    fn = rng.choice(['fn', 'raw', 'nullfn'])
+    ops = ['fd open 0 %s' % fn, 'fd cpc 1 0', 'fd cpa 2 0']
+    for _ in range(rng.randrange(3, 10)):
+        a, b = rng.sample(range(3), 2)
+        ops.append('fd %s %d %d' % (rng.choice(['cpa', 'cpa', 'mva', 'swap', 'cpc', 'mvc']), a, b))
+        if rng.random() < 0.5:
+            # re-establish the sharing from whatever handle still holds the record
+            ops += ['fd cpa %d %d' % (x, y) for x in range(3) for y in range(3) if x != y][:rng.randrange(0, 3)]
+        if rng.random() < 0.15: ops.append('fd close %d' % rng.randrange(3))
+        if rng.random() < 0.2: ops.append('fd %s %d' % (rng.choice(['isnb', 'cloexec']), rng.randrange(3)))
+    return ops + ['fd reset 0', 'fd reset 1', 'fd reset 2']
+
+
 def gen_lt(rng, nops):
     ops = []
     nt = rng.choice([1, 2, 4]); nw = rng.choice([2, 3, 6])
@@ -317,7 +467,7 @@ def gen_lt(rng, nops):
 
 
 def gen_mixed(rng, nops):
-    parts = [gen_cab(rng, nops), gen_pool(rng, nops), gen_fd(rng, nops), gen_lt(rng, nops)]
+    parts = [gen_cab(rng, nops), gen_pool(rng, nops), gen_fd(rng, nops), gen_lt(rng, nops), gen_fd_x(rng, max(1, nops // 8))]
     out = []
     while any(parts):
         p = rng.choice([q for q in parts if q])
@@ -427,6 +577,9 @@ MALFORMED = ['cab', 'cab alloc', 'cab alloc 1000', 'cab alloc x', 'cab at 0', 'c
              'cab atraw 18446744073709551616 0', 'cab atraw 18446744073709551615 18446744073709551615', 'cab jump', 'cab jump 18446744073709551616', 'cab bulk', 'cab bulk alloc 400001 1', 'cab bulk alloc 3 1000',
              'cab bulk at 0 1', 'cab bulk free 0 0 0 0 up', 'cab bulk free 0 0 1 1 up', 'cab bulk free 0 0 1 0 sideways', 'cab bulk free 0 0 1 0 up', 'cab bulk distinct', 'cab bulk distinct 1',
              'pool bulk 3 max 4', 'pool bulk 3 x 1', 'pool bulk 400001 1 1', 'pool bulk 0 0 0', 'fd open 0 nullfn', 'fd io 0 read', 'fd io 0 peek 1', 'fd io 0 read -1', 'fd io 0 read 100000', 'fd io 8 read 1', 'fd nonblock 0 2', 'fd nonblock 0', 'fd isnb 8', 'fd cloexec', 'fd fopen 0 maybe', 'fd fopen 8 ok', 'fd closefail 1 enospc', 'fd closefail 100 eio', 'fd closefail 1 eio', 'fd io 0 read eintr', 'fd openneg 0 3 fn', 'fd openneg 0 0 xx', 'fd openneg 8 0 fn', 'fd openneg 1 2 raw', 'fd new 0', 'fd new 1',
+             'cab each 0:x', 'cab each 0:X1000', 'cab each 0:ee', 'cab each 0:x5,0:X6,0:e,0:E', 'cab reserve 18446744073709551616', 'cab reserve 18446744073709551615', 'cab reserve -1', 'cab reserve 100000', 'cab reserve 4294967295', 'cab reserve 4294967296', 'cab opd at next', 'cab opd at bogus 0',
+             'cab opd peek next 0', 'cab opd at next 0', 'cab opd at next 1', 'cab opd free prev 0', 'pool x A 0 1 t t', 'pool x t', 'pool x F 0 t', 'pool x A 0 1 t', 'pool x A 0 1 A 1 2 t t', 'fd x', 'fd x [', 'fd x close.0 [', 'fd x cpa.0.1 [ close.0 ]',
+             'fd x close.0 ]', 'fd x close..0', 'fd x .close.0', 'fd x close.0.', 'fd x closefail.1.eio', 'fd x close.8', 'fd x close.0 [ [ ] ]', 'fd x open.0.fn close.0 [ ] new.0 [ ]', 'fd x x', 'fd x close.0 [ x ]',
              'cab alloc 1_0', 'cab alloc 000000000000000001', 'cab alloc 00000000000001', 'cab alloc +1', 'pool new 1_0', 'cab at 0_0']
 
 
@@ -458,6 +611,21 @@ def gen(rng, tier):
     for b in JUMP_B:
         yield ['cab alloc 1', 'cab alloc 2', 'cab jump %d' % (b - 2), 'cab alloc 3', 'cab alloc 4', 'cab alloc 5', 'cab alloc 6', 'cab scan', 'cab free 3', 'cab free 4', 'cab alloc 7', 'cab alloc 8', 'cab scan',
                'cab bulk distinct', 'cab atraw %d 2' % b, 'cab atraw %d 3' % b, 'cab atraw 0 3', 'cab atraw 1 3', 'cab atraw %d 3' % (b + 1), 'cab size']
+    # round 5 -- exceptions in nested places
+    # alloc()/reserve() throwing inside foreach callbacks: caught there (x, e) or leaving foreach (X, E); with a free cell `x` succeeds
+    yield ['cab alloc 1', 'cab alloc 2', 'cab alloc 3', 'cab each 0:x7,0:a9,1:x8,2:e', 'cab scan', 'cab each 0:1,0:x7,1:X8,1:c,2:c', 'cab scan', 'cab size', 'cab each 0:e,1:E,2:c', 'cab scan',
+           'cab each 0:E', 'cab each 0:X5', 'cab free 0', 'cab each 0:X5,0:X6', 'cab scan', 'cab each 0:n,0:x5,0:n,0:r5000,0:x6,1:E', 'cab scan', 'cab size', 'cab each -']
+    yield ['cab reserve 99999', 'cab reserve 4294967296', 'cab alloc 1', 'cab reserve 576460752303423487', 'cab reserve 576460752303423488', 'cab reserve 9223372036854775808', 'cab reserve 18446744073709551615',
+           'cab alloc 2', 'cab scan', 'cab size', 'cab free 0', 'cab reserve 4294967296', 'cab alloc 3', 'cab scan']
+    # constructors that throw while nested in other pool calls: caught by the enclosing constructor / destructor, or passed on
+    yield ['pool new 2', 'pool x A 0 1 A 1 2 t a', 'pool x A 2 3 A 3 4 t t', 'pool stat', 'pool free 0', 'pool x A 4 5 A 5 6 a A 6 7 t F 5 f t', 'pool stat', 'pool alloc 0 1', 'pool alloc 1 2',
+           'pool x F 0 A 7 1 t A 8 2 a f', 'pool x F 1 F 8 A 9 3 t f f', 'pool stat', 'pool new max', 'pool x A 0 1 A 1 2 A 2 3 t t a', 'pool alloc 3 4', 'pool free 0', 'pool x A 4 5 F 3 f A 5 6 t a', 'pool stat']
+    # close functions that call back into the handles (patches/C08-06): close() re-entered through a copy, the handle reset / re-opened
+    # from inside its own close function, destruction chains
+    yield ['fd x open.0.fn cpc.1.0 close.0 [ close.1 close.0 ]', 'fd x new.0 new.1', 'fd x open.0.fn close.0 [ reset.0 close.0 ]', 'fd x open.0.fn cpc.1.0 close.1 [ reset.1 reset.0 open.0.fn close.0 [ new.0 ] ]',
+           'fd x open.2.fn reset.2 [ open.2.fn cpa.3.2 ] close.3 [ close.2 new.2 [ ] new.3 ]', 'fd x open.0.fn open.1.fn new.0 [ new.1 [ open.0.fn ] ] close.0 [ mva.0.1 swap.0.1 ]', 'fd new 0', 'fd new 1', 'fd new 2', 'fd new 3']
+    yield ['fd open 0 raw', 'fd x close.0 [ open.1.fn ]', 'fd open 0 fn', 'fd close 0', 'fd x close.0 [ open.1.fn ] reset.0 [ open.1.fn ]', 'fd x open.0.fn cpc.1.0 reset.0 [ open.2.fn ] reset.1 [ open.2.fn close.2 [ isnb.2 cloexec.2 io.2.read.3 ] ]',
+           'fd new 2']
     yield ['cab clear', 'cab alloc 0', 'cab at 0', 'cab upd 0 0', 'cab upd 0 5', 'cab at 0', 'cab free 0', 'cab free 0', 'cab clear', 'cab size']
     yield ['pool new 1', 'pool alloc 0 10', 'pool alloc 1 11', 'pool free 0', 'pool free 1', 'pool alloc 2 12', 'pool alloc 3 13',
            'pool alloc 3 14', 'pool free 5', 'pool stat', 'pool new 0', 'pool alloc 0 1', 'pool free 0', 'pool alloc 0 2',
@@ -519,6 +687,14 @@ def gen(rng, tier):
             yield gen_pool_bulk(rng, nb)
     yield ['pool bulk 0 0 0', 'pool bulk 1 0 1', 'pool bulk 1 1 1', 'pool bulk 2 1 2', 'pool bulk 70000 69999 70000', 'pool bulk 70000 max 70000', 'pool bulk 70000 0 70000']
     n = 4 if quick else 24
+    for _ in range(30 * n):
+        yield gen_derived(rng)
+    for _ in range(25 * n):
+        yield gen_pool_lifo(rng)
+    for _ in range(30 * n):
+        yield gen_fd_x(rng, rng.choice([2, 6, 15]))
+    for _ in range(15 * n):
+        yield gen_fd_same(rng)
     for _ in range(40 * n):
         yield gen_bulk(rng, rng.choice([0, 1, 2, 5, 40, 300]), pre=rng.choice([0, 10, 60]))
     for _ in range(30 * n):
@@ -573,13 +749,43 @@ def gen(rng, tier):
                 if nested_ok(seq):
                     yield ['pool new %s' % rng.choice(['1', '2', 'max']), 'pool alloc 5 9', 'pool alloc 6 9', 'pool free 5', 'pool free 6',
                            'pool x ' + ' '.join(seq), 'pool stat']
+        # ... with constructors that throw (`t` closes an `A`): every well-nested tree of up to 4 calls
+        alpha = ['A 0 1', 'A 1 2', 't', 'a', 'F 0', 'f']
+        def nested_ok_t(seq):
+            st = []
+            for t in seq:
+                if t[0] in 'AF': st.append(t[0])
+                elif not st or st.pop() != ('A' if t in ('a', 't') else 'F'): return False
+            return not st
+        for L in range(2, 9, 2):
+            for seq in itertools.product(alpha, repeat=L):
+                if 't' in seq and nested_ok_t(seq):
+                    yield ['pool new %s' % rng.choice(['1', '2', 'max']), 'pool alloc 0 9', 'pool alloc 6 9', 'pool free 6',
+                           'pool x ' + ' '.join(seq), 'pool stat', 'pool alloc 7 1', 'pool stat']
+        # re-entrant close functions: every program of <= 4 items over a small alphabet, every bracketing
+        alpha = ['open.0.fn', 'cpa.1.0', 'close.0', 'reset.0', 'new.1', 'close.1', '[', ']']
+        def brackets_ok(seq):
+            d = 0; prev = None
+            for t in seq:
+                if t == '[':
+                    if prev is None or prev.split('.')[0] not in ('close', 'reset', 'new'): return False
+                    d += 1
+                elif t == ']':
+                    if d == 0: return False
+                    d -= 1
+                prev = t
+            return d == 0
+        for L in range(1, 7):
+            for seq in itertools.product(alpha, repeat=L):
+                if '[' in seq and brackets_ok(seq):
+                    yield ['fd open 0 fn', 'fd cpc 1 0', 'fd x ' + ' '.join(seq), 'fd new 0', 'fd new 1']
         alpha = ['lt tnew 0', 'lt tdel 0', 'lt wset 0 0', 'lt wcpa 1 0', 'lt wmva 0 1', 'lt wreset 0', 'lt wcpc 1 0', 'lt tcpc 1 0']
         for L in range(1, 5):
             for seq in itertools.product(alpha, repeat=L):
                 yield list(seq) + rng.choice([['lt tdel 0', 'lt tdel 1', 'lt wnew 0', 'lt wnew 1'], ['lt wnew 0', 'lt wnew 1', 'lt tdel 0', 'lt tdel 1']])
 
 
-KEY_TAGS = ('pool-ctor-throw', 'allocfail-throw', 'jump-near-2', 'pool-keep>=2^31', 'each-cb-reentrant-read', 'closed-shared', 'cloexec-open-set-on-nonblocking', 'cloexec-open-shared-set-on-nonblocking', 'fopen-fail', 'io-open', 'setnb-open', 'bulk-above-2^16', 'bulk-cross-2^16', 'pool-bulk-over-keep', 'from-dead', 'tok-pos>=2^16', 'tok-pos>=2^32', 'tok-pos>=2^48', 'tok-pos>=2^63', 'tok-id>=2^48', 'tok-id>=2^63', 'jump-near-max', 'openneg', 'pool-ctor-alloc-parked', 'pool-dtor-alloc-parked', 'pool-dtor-free', 'pool-drop-live', 'w-last-frees', 't-outlived-by-watchers', 'tok-stale-reused', 'each-removed', 'each-cb-grew', 'pool-reuse', 'rel-last-closes', 'close-shared')
+KEY_TAGS = ('pool-throw-nested', 'pool-ctor-throw-after-nested', 'each-cb-threw', 'reserve-throws', 'derived-', 'fd-x-callback-ran', 'same-detail', 'pool-ctor-throw', 'allocfail-throw', 'jump-near-2', 'pool-keep>=2^31', 'each-cb-reentrant-read', 'closed-shared', 'cloexec-open-set-on-nonblocking', 'cloexec-open-shared-set-on-nonblocking', 'fopen-fail', 'io-open', 'setnb-open', 'bulk-above-2^16', 'bulk-cross-2^16', 'pool-bulk-over-keep', 'from-dead', 'tok-pos>=2^16', 'tok-pos>=2^32', 'tok-pos>=2^48', 'tok-pos>=2^63', 'tok-id>=2^48', 'tok-id>=2^63', 'jump-near-max', 'openneg', 'pool-ctor-alloc-parked', 'pool-dtor-alloc-parked', 'pool-dtor-free', 'pool-drop-live', 'w-last-frees', 't-outlived-by-watchers', 'tok-stale-reused', 'each-removed', 'each-cb-grew', 'pool-reuse', 'rel-last-closes', 'close-shared')
 
 
 def nontrivial(ops, model_lines):
@@ -598,7 +804,7 @@ LEVEL_TEXT = ('Lean 4 theorems over hand-written models of Cabinet (intrusive fr
               'foreach with free/alloc/update/clear from inside callbacks; the Token class (round trip of full size_t id/position, order, hash); closed-form bulk theorems '
               '(n allocations: every token resolves to its own object, ids/positions, size; arbitrary subsets freed) for every n; the Array implementation the driver runs proved equal to the model; '
               'pool blocks never handed out while live (also n objects at once beyond any retention limit, for every n), ctor/dtor balance, statistics, retention limit, '
-              'destruction with live objects, constructors that throw (invariant kept, block lost: counterexample theorem); Cabinet::alloc failing with bad_alloc in histories (refinement kept, both evaluation orders); '
+              'destruction with live objects, constructors that throw - also nested inside other calls, caught or passed on (invariant kept, lost blocks never handed out again in any later state; counterexample theorem for the leak); iterations whose callbacks make throwing calls (caught or leaving foreach), reserve; re-entrant close functions = flat histories (+ counterexample for close() as found before patches/C08-06); the property as one statement (C08_no_dangle_no_alias); Cabinet::alloc failing with bad_alloc in histories (refinement kept, both evaluation orders); '
               'Fd reference counts and close-exactly-once, no system call on a closed descriptor through any copy, Open, read/write wrappers for every kernel answer, fcntl flag semantics of setNonBlock/isNonBlock/setCloseOnExec (+ counterexample for the F_SETFL defect), operations from empty handles; '
               'LifetimeTag/Watcher member by member (copy, move, bind, reset, swap, tag copy/assignment, watchers outliving the tag); LifetimeTag/Watcher: alive iff the tag exists, record deleted '
               'exactly once after tag and last watcher, no access to a deleted record in any destruction order; models tied to the headers and fd.cpp on every run by differential execution (ASan+UBSan build of the working tree)')
